@@ -101,6 +101,13 @@ Proof.
   exfalso. exact (render_token_nonempty t H).
 Qed.
 
+Lemma match_render (r : list token) (x : Z) :
+  match r with [] => (-1)%Z | _ :: _ => x end = match render r with [] => (-1)%Z | _ :: _ => x end.
+Proof.
+  destruct r as [|t2 r']; [reflexivity|]. destruct (render (t2 :: r')) eqn:E; [|reflexivity].
+  apply render_nil_iff in E. discriminate.
+Qed.
+
 Lemma skipn_app_exact {A} (l1 l2 : list A) : skipn (length l1) (l1 ++ l2) = l2.
 Proof. induction l1; simpl; auto. Qed.
 
@@ -149,12 +156,8 @@ Proof.
   induction ts as [|t r IH]; intros pre acc st0 fuel Hok Hf.
   - simpl. rewrite !app_nil_r. destruct fuel; simpl; rewrite Nat.ltb_irrefl; reflexivity.
   - simpl in Hok. apply andb_true_iff in Hok. destruct Hok as [Ht Hr].
-    unfold render in *. simpl map. simpl concat. fold (render r) in *.
-    simpl map in Hf. simpl concat in Hf. rewrite app_length in Hf.
-    assert (Hrn : match r with [] => (-1)%Z | _ => Z.of_nat (length pre + length (render_token t)) end =
-                  match render r with [] => (-1)%Z | _ => Z.of_nat (length pre + length (render_token t)) end).
-    { destruct r as [|t2 r']; [reflexivity|]. destruct (render (t2 :: r')) eqn:E; [|reflexivity].
-      apply render_nil_iff in E. discriminate. }
+    change (render (t :: r)) with (render_token t ++ render r) in *.
+    rewrite app_length in Hf.
     destruct t as [c|n|n]; simpl render_token in *; simpl tok_ok in Ht.
     + (* static byte *)
       destruct fuel as [|fuel]; [simpl in Hf; lia|].
@@ -179,7 +182,7 @@ Proof.
             by (rewrite nth_error_app2 by lia; now rewrite Nat.sub_diag).
           reflexivity. }
       replace (pre ++ ("{" :: n ++ ["}"]) ++ render r) with ((pre ++ ["{"]) ++ n ++ "}" :: render r)
-        by (rewrite <- !app_assoc; simpl; rewrite <- app_assoc; reflexivity).
+        by (rewrite <- ?app_assoc; simpl; rewrite <- ?app_assoc; reflexivity).
       assert (Hl1 : S (length pre) = length (pre ++ ["{"])) by (rewrite app_length; simpl; lia).
       rewrite Hl1.
       replace fuel with (length n + (fuel - length n)) at 1 by lia.
@@ -187,15 +190,14 @@ Proof.
       destruct (fuel - length n) as [|fuel'] eqn:Efl; [lia|].
       rewrite (wloop_close fuel' (pre ++ ["{"]) n (render r) StParam false) by (left; auto).
       replace ((pre ++ ["{"]) ++ n ++ "}" :: render r) with (((pre ++ ["{"]) ++ n ++ ["}"]) ++ render r)
-        by (rewrite <- !app_assoc; simpl; rewrite <- app_assoc; reflexivity).
+        by (rewrite <- ?app_assoc; simpl; rewrite <- ?app_assoc; reflexivity).
       replace (S (length (pre ++ ["{"]) + length n)) with (length ((pre ++ ["{"]) ++ n ++ ["}"]))
         by (rewrite !app_length; simpl; lia).
       rewrite IH by (auto; lia).
-      rewrite <- app_assoc. f_equal. simpl wild_spec. simpl map. unfold mkp at 2.
-      rewrite Hrn.
-      replace (length pre + length ("{" :: n ++ ["}"])) with (length ((pre ++ ["{"]) ++ n ++ ["}"]))
-        by (rewrite !app_length; simpl; rewrite app_length; simpl; lia).
-      reflexivity.
+      rewrite <- app_assoc. f_equal. simpl wild_spec. simpl map.
+      assert (Hlen : length ((pre ++ ["{"]) ++ n ++ ["}"]) = length pre + S (length (n ++ ["}"])))
+        by (rewrite !app_length; simpl; lia).
+      rewrite Hlen, <- match_render. reflexivity.
     + (* *{name} *)
       simpl length in Hf. rewrite app_length in Hf. simpl length in Hf.
       destruct fuel as [|fuel]; [lia|].
@@ -206,7 +208,7 @@ Proof.
             by (rewrite nth_error_app2 by lia; now rewrite Nat.sub_diag).
           reflexivity. }
       replace (pre ++ ("*" :: "{" :: n ++ ["}"]) ++ render r) with ((pre ++ ["*"; "{"]) ++ n ++ "}" :: render r)
-        by (rewrite <- !app_assoc; simpl; rewrite <- app_assoc; reflexivity).
+        by (rewrite <- ?app_assoc; simpl; rewrite <- ?app_assoc; reflexivity).
       assert (Hl1 : length pre + 2 = length (pre ++ ["*"; "{"])) by (rewrite app_length; simpl; lia).
       rewrite Hl1.
       replace fuel with (length n + (fuel - length n)) at 1 by lia.
@@ -214,15 +216,14 @@ Proof.
       destruct (fuel - length n) as [|fuel'] eqn:Efl; [lia|].
       rewrite (wloop_close fuel' (pre ++ ["*"; "{"]) n (render r) StCatchAll true) by (right; auto).
       replace ((pre ++ ["*"; "{"]) ++ n ++ "}" :: render r) with (((pre ++ ["*"; "{"]) ++ n ++ ["}"]) ++ render r)
-        by (rewrite <- !app_assoc; simpl; rewrite <- app_assoc; reflexivity).
+        by (rewrite <- ?app_assoc; simpl; rewrite <- ?app_assoc; reflexivity).
       replace (S (length (pre ++ ["*"; "{"]) + length n)) with (length ((pre ++ ["*"; "{"]) ++ n ++ ["}"]))
         by (rewrite !app_length; simpl; lia).
       rewrite IH by (auto; lia).
-      rewrite <- app_assoc. f_equal. simpl wild_spec. simpl map. unfold mkp at 2.
-      rewrite Hrn.
-      replace (length pre + length ("*" :: "{" :: n ++ ["}"])) with (length ((pre ++ ["*"; "{"]) ++ n ++ ["}"]))
-        by (rewrite !app_length; simpl; rewrite app_length; simpl; lia).
-      reflexivity.
+      rewrite <- app_assoc. f_equal. simpl wild_spec. simpl map.
+      assert (Hlen : length ((pre ++ ["*"; "{"]) ++ n ++ ["}"]) = length pre + S (S (length (n ++ ["}"]))))
+        by (rewrite !app_length; simpl; lia).
+      rewrite Hlen, <- match_render. reflexivity.
 Qed.
 
 Theorem parseWildcard_tokens ts :
@@ -276,8 +277,8 @@ Proof.
   unfold piece_lex_ok, render_piece, piece_tokens. intros H. apply andb_true_iff in H. destruct H as [Hs Hw].
   rewrite <- !app_assoc, tok_static by assumption. f_equal.
   destruct (p_wild p) as [[n|n]|]; simpl.
-  - rewrite Ascii.eqb_refl. rewrite <- app_assoc. simpl. rewrite (tok_name MParam) by (auto; discriminate). reflexivity.
-  - change (Ascii.eqb "*" "{") with false. cbv iota. rewrite <- app_assoc. simpl.
+  - rewrite <- app_assoc. simpl. rewrite (tok_name MParam) by (auto; discriminate). reflexivity.
+  - rewrite <- app_assoc. simpl.
     rewrite (tok_name MCatch) by (auto; discriminate). reflexivity.
   - reflexivity.
 Qed.
